@@ -6,7 +6,7 @@
 // OTHER fibers are run before it runs again is at most 2*n.
 #include "rt_common.h"
 
-#define MAXF 5
+#define MAXF 160
 static int nf, Y, chain;
 static int g_ready[MAXF], g_bypass[MAXF], g_done[MAXF], g_maxbypass, g_runs;
 static int ycount[MAXF];
@@ -53,7 +53,12 @@ int harness_main(void) {
   chain = fmc_param("chain", 0);
   rt_start();
   fmc_begin();
-  for (int i = 1; i < nf; i++) ycount[i] = fmc_input(Y + 1);
+  // -Dfixed=1: many fibers, every one yields Y times (thresholds that depend on the NUMBER of
+  // ready fibers); otherwise every vector of yield counts in 0..Y is enumerated as an input
+  if (fmc_param("fixed", 0))
+    for (int i = 1; i < nf; i++) ycount[i] = Y;
+  else
+    for (int i = 1; i < nf; i++) ycount[i] = fmc_input(Y + 1);
   int first = chain ? 2 : nf;
   for (int i = 1; i < first; i++) {
     mark_ready(i);
@@ -65,7 +70,7 @@ int harness_main(void) {
     mark_ready(0);
     fiber_yield();
     runs_now(0);
-    if (++polls > 400) fmc_fail("yield fairness: main polled 400 times and the other fibers still have not finished");
+    if (++polls > 400 + 20 * nf) fmc_fail("yield fairness: main polled very many times and the other fibers still have not finished");
   }
   for (int i = 1; i < nf; i++) fiber_join(fib[i], 0);
   fmc_obs(g_maxbypass);
